@@ -115,7 +115,7 @@ def run_batch(prop_id: str, seed: int, tier: str, indices: list[int], out_path: 
     t0 = time.time()
     runs, failures, harness = [], {}, []
     known = load_known()
-    min_total = int(os.environ.get("VSIM_MIN_BUDGET", "90"))  # executions per batch spent on shrinking
+    min_total = int(os.environ.get("VSIM_MIN_BUDGET", getattr(prop, "MIN_BUDGET", 60)))  # executions per batch spent on shrinking
     hangs = 0
     for idx in indices:
         if hangs >= 3:   # a hang is established; do not spend the batch's wall budget re-finding it
@@ -145,7 +145,7 @@ def run_batch(prop_id: str, seed: int, tier: str, indices: list[int], out_path: 
             rec = {"sig": sig, "count": 1, "index": idx, "detail": f.get("detail")}
             sc2 = res.get("scenario", sc)
             if (known_match(prop_id, sig, known) is None or os.environ.get("VSIM_MIN_KNOWN")) and min_total > 0:
-                sc2, spent = minimise(prop, zy, sc2, sig, min(30, min_total))
+                sc2, spent = minimise(prop, zy, sc2, sig, min(getattr(prop, "MIN_PER_SIG", 30), min_total))
                 min_total -= spent
                 rec["minimise_execs"] = spent
             rec["replay"] = write_replay(prop_id, sig, sc2)
